@@ -879,10 +879,17 @@ def grad_einsum(argnum, ans, operands_, kwargs):
 
 defvjp_argnum(anp.einsum, grad_einsum)
 
-defvjp(
-    anp.diagonal,
-    lambda ans, A, offset=0, axis1=0, axis2=1: lambda g: anp.make_diagonal(g, offset, axis1, axis2),
-)
+def grad_diagonal(ans, A, offset=0, axis1=0, axis2=1):
+    def vjp(g):
+        d = anp.make_diagonal(g, offset, axis1, axis2)
+        # make_diagonal is square in its last two axes; pad to A's shape when those are not square
+        pads = [(0, sa - sd) for sa, sd in zip(anp.shape(A), anp.shape(d))]
+        return anp.pad(d, pads, "constant") if any(p[1] for p in pads) else d
+
+    return vjp
+
+
+defvjp(anp.diagonal, grad_diagonal)
 defvjp(
     anp.make_diagonal,
     lambda ans, D, offset=0, axis1=0, axis2=1: lambda g: anp.diagonal(g, offset, axis1, axis2),
